@@ -24,6 +24,7 @@ type Denoter struct {
 type memoKey struct {
 	p unsafe.Pointer
 	t reflect.Type
+	n int // slice length (0 for objects and maps)
 }
 
 // NewDenoter builds a denoter for a name map (nil = no names registered).
@@ -98,7 +99,7 @@ func (d *Denoter) val(v reflect.Value) *rh.Value {
 		}
 		e := v.Elem()
 		if e.Kind() == reflect.Struct && e.Type() != timeType {
-			k := memoKey{unsafe.Pointer(v.Pointer()), e.Type()}
+			k := memoKey{unsafe.Pointer(v.Pointer()), e.Type(), 0}
 			if m, ok := d.memo[k]; ok {
 				return m
 			}
@@ -142,7 +143,8 @@ func (d *Denoter) val(v reflect.Value) *rh.Value {
 		if v.Kind() == reflect.Slice && v.Len() > 0 {
 			// same backing array, same length, same type = the same slice header (the length is remembered
 			// separately: the node may still be under construction when a cycle leads back to it)
-			k := memoKey{unsafe.Pointer(v.Pointer()), v.Type()}
+			// (prefixes s[:2] and s[:3] of one array are different lists: the length is part of the key)
+			k := memoKey{unsafe.Pointer(v.Pointer()), v.Type(), v.Len()}
 			if m, ok := d.memo[k]; ok && d.memoLen[m] == v.Len() {
 				return m
 			}
@@ -163,7 +165,7 @@ func (d *Denoter) val(v reflect.Value) *rh.Value {
 		if v.IsNil() || v.Len() == 0 {
 			return rh.NullV()
 		}
-		k := memoKey{unsafe.Pointer(v.Pointer()), v.Type()}
+		k := memoKey{unsafe.Pointer(v.Pointer()), v.Type(), 0}
 		if m, ok := d.memo[k]; ok {
 			return m
 		}
